@@ -277,6 +277,14 @@ class Executor:
             return
         entry = dict(env)        # the caller's view: parameters bound to the ORIGINAL boxes (a rebinding inside the body is invisible)
         self.entry = entry
+        # the boxes (mutable sequences) reachable from the parameters' fields at entry, by field name: lets a postcondition say
+        # "this array object was rebound, not overwritten"
+        self.entry_boxes = {}
+        for v_ in env.values():
+            if isinstance(v_, Obj):
+                for fn_, fv_ in v_.fields.items():
+                    if isinstance(fv_, Seq):
+                        self.entry_boxes[fn_] = fv_
         result = None
         raised = None
         try:
